@@ -18,7 +18,8 @@ RULE = ("base cases: C03-style call histories (1-4 calls, FunctorPool and Factor
         "per executed statement and occurrence, random combinations). Oracle over the log: per worker exactly one "
         "begin before its first item, exactly one end after its last item (also after a fault), no event after end, "
         "distinct chunks <= quota, until_all_ready returns after every initial worker's begin, after pool exit no "
-        "worker pid is alive. distinct_nontrivial = distinct (base case, thread-switch-pair set, plan size).")
+        "worker pid is alive. distinct_nontrivial = distinct (base case, thread-switch-pair set, plan size)."
+        " Also: faults raised as SystemExit, a stand-by worker with quota 0, float quotas, with-bodies that raise, until_all_ready polled from a side thread during calls, a pool with join_timeout 0.3 s whose begin() takes 0.9 s, three workers on a one-slot work queue that die in begin() while the stop orders are sent or stay in begin() for 1.6 s.")
 ASSUMPTIONS = [
     "a raising functor leaves the consumer waiting for a chunk that cannot come (outside this property): fault runs "
     "drive the generator in a side thread, wait for quiescence and assert only lifecycle facts",
